@@ -28,6 +28,8 @@ TRUSTED_BASE = [
     "Mathlib v4.33.0 modules imported by proof files (precompiled)",
     "hand-written Lean model tied to /repo by the differential correspondence harness (testing)",
     "tools/extract_tables.py (ast translator of tables/constants into Lean)",
+    "tools/py2lean.py (ast translator of pure functions into Lean definitions: lean/CnfgenModel/Generated/Funcs.lean, "
+    "semantics of the Python subset in lean/CnfgenModel/Core/Py.lean; see notes/translator.md)",
 ]
 
 
